@@ -482,7 +482,9 @@ class Bits:
         else:
             # We can't in general hash the whole bitstring (it could take hours!)
             # So instead take some bits from the start and end.
-            return hash(((self[:800] + self[-800:]).tobytes(), len(self)))
+            # (Use absolute slices so that the hash doesn't depend on whether lsb0 mode is on.)
+            length = len(self)
+            return hash(((self._absolute_slice(0, 800) + self._absolute_slice(length - 800, length)).tobytes(), length))
 
     def __bool__(self) -> bool:
         """Return False if bitstring is empty, otherwise return True."""
